@@ -582,7 +582,6 @@ def r5_consumers(repo: Repo, rep):
     rep.saw(fi)
     bb = fi.params[1]
     from .c11 import lhs_axis_formula
-    from ..absdom.symtensor import NotSym
     n_lhs = 0
     for p in paths(fi.node):
         if p.ret is RAISE:
@@ -819,6 +818,47 @@ def r14_point_box(repo: Repo, rep):
         rep.check(R, len(gl) == len(want) and all(isinstance(a, RF) and a == b for a, b in zip(gl, want)), fi.site(), fi.fq, text, f"{[repr(g) for g in gl]}", f"{label}: {[repr(g) for g in gl]}")
 
 
+def r16_layout_of_every_reader(repo: Repo, rep):
+    R = rep.rule("R-C18-16", "every reader of a bounding box addresses it as [min_1, max_1, min_2, max_2, ..]: entries by constants, 2*i / 2*i + 1, strides ::2 / 1::2 or pairs 2*i : 2*i + 2 - "
+                 "never as two halves [:k] / [k:] (the layout [mins.., maxs..])", floor=20,
+                 why="a reader that splits the box into a lower and an upper corner compares x with (x_min, x_max) and y with (y_min, y_max): pre-filters, strata and plots built on it lie outside the domain")
+
+    def even_form(e):
+        # constants, or arithmetic that contains a literal factor 2 (2 * i, 2 * i + 1, i * 2 + 2): the pair of one axis
+        if e is None:
+            return True
+        if isinstance(e, ast.Constant) and isinstance(e.value, int):
+            return True
+        return any(isinstance(n, ast.BinOp) and isinstance(n.op, (ast.Mult, ast.LShift)) and any(isinstance(c, ast.Constant) and c.value in (1, 2) for c in (n.left, n.right)) for n in ast.walk(e))
+    n_seen = 0
+    for fi in repo.all_functions():
+        if "/utils/plotting/" in fi.module.relpath or not fi.module.relpath.startswith("src/"):
+            continue
+        names = set()
+        for n in ast.walk(fi.node):
+            if isinstance(n, ast.Assign) and isinstance(n.value, ast.Call) and isinstance(n.value.func, ast.Attribute) and n.value.func.attr == "bounding_box":
+                names |= {t.id for t in n.targets if isinstance(t, ast.Name)}
+        for n in ast.walk(fi.node):
+            if not isinstance(n, ast.Subscript):
+                continue
+            b = n.value
+            if not ((isinstance(b, ast.Name) and b.id in names) or (isinstance(b, ast.Call) and isinstance(b.func, ast.Attribute) and b.func.attr == "bounding_box")):
+                continue
+            if isinstance(n.ctx, ast.Store):
+                continue
+            rep.saw(fi)
+            n_seen += 1
+            last = n.slice.elts[-1] if isinstance(n.slice, ast.Tuple) and n.slice.elts else n.slice
+            ok = True
+            if isinstance(last, ast.Slice):
+                stride = last.step is not None and not (isinstance(last.step, ast.Constant) and last.step.value in (1, None))
+                if not stride:
+                    ok = even_form(last.lower) and even_form(last.upper)
+            rep.check(R, ok, fi.site(n), fi.fq, "the box is read entry-wise / pair-wise / with stride 2", dump(n), f"{dump(n)}")
+    if n_seen == 0:
+        raise AnalysisError("no reader of a bounding box found")
+
+
 def r15_lhs_per_row_per_axis(repo: Repo, rep):
     R = rep.rule("R-C18-15", "Latin-hypercube proposals: the box is evaluated for EVERY parameter row (unconditionally, inside the per-row loop, with that row's parameters) and "
                  "every axis draws its OWN permutation of the strata (randperm inside the per-axis loop)", floor=2,
@@ -864,6 +904,7 @@ def run(repo: Repo, rep):
     r13_user_box_order(repo, rep)
     r14_point_box(repo, rep)
     r15_lhs_per_row_per_axis(repo, rep)
+    r16_layout_of_every_reader(repo, rep)
     r10_membership_within_box(repo, rep)
     r9_no_rounding(repo, rep)
     r1_r2_primitives(repo, rep)
